@@ -266,8 +266,10 @@ func (t *Thread) end(args []Value, err error, exception interface{}) {
 	t.caller = nil
 	err = t.cleanupCloseStack(nil, 0, err) // TODO: not nil
 	t.closeErr = err
-	caller.sendResumeValues(args, err, exception)
+	// Release the memory before handing control back to the caller: once the
+	// values are sent the caller's goroutine runs and owns the runtime.
 	t.ReleaseBytes(2 << 10) // The goroutine will terminate after this
+	caller.sendResumeValues(args, err, exception)
 }
 
 func (t *Thread) call(c Callable, args []Value, next Cont) error {
